@@ -61,7 +61,8 @@ def variants(rng, ballots):
     s = rng.choice([F(2), F(3), F(1, 2), F(2, 3), F(7), F(5, 4)])
     out.append(("rescale", [{"r": b["r"], "w": rat(F(*b["w"]) * s)} for b in ballots]))
     z = list(ballots)
-    z.insert(rng.randint(0, len(z)), {"r": rng.choice(ballots)["r"] if rng.random() < 0.5 else [[c] for c in rng.choice(ballots)["r"][0]], "w": [0, 1]})
+    zb = rng.choice(ballots)["r"]
+    z.insert(rng.randint(0, len(z)), {"r": zb if rng.random() < 0.5 or not zb else [[c] for c in zb[0]], "w": [0, 1]})
     out.append(("zero", z))
     return out
 
@@ -78,6 +79,7 @@ def lp_work(inp):
     p = inp["p"]
     t["p"] = p
     pv = "inf" if p == 0 else p
+    var_list = variants(rng, inp["a"])          # harness work stays outside the try: only the library's exceptions are logged
     try:
         with quiet():
             mk = lambda bl: E.build_profile(inp["cands"], bl, inp.get("names"), inp.get("cand_order"))  # noqa
@@ -85,7 +87,7 @@ def lp_work(inp):
             dab, dbc, dac, dba = lp_dist(A, B, pv), lp_dist(B, C, pv), lp_dist(A, C, pv), lp_dist(B, A, pv)
             t["vals"] = {"ab": qrat(dab, p), "bc": qrat(dbc, p), "ac": qrat(dac, p), "ba": qrat(dba, p)}
             t["tri"] = bool(float(dac) <= float(dab) + float(dbc) + 1e-9)
-            for kind, bl in variants(rng, inp["a"]):
+            for kind, bl in var_list:
                 V = mk(bl)
                 t["vars"].append(dict(qrat(lp_dist(V, B, pv), p), kind=kind))
                 t["selfs"].append(dict(qrat(lp_dist(A, V, pv), p), kind=kind))
@@ -208,6 +210,8 @@ def lp_corpus(tier, seed):
         bags = []
         for tt in tots:
             pool = shared + (rng.sample(rk, 2) if rng.random() < 0.5 else [])
+            if rng.random() < 0.3:
+                pool = pool + [[]]        # ballots without a ranking (blank / exhausted): one more point of the distribution
             pool = [list(x) for x in {json.dumps(r): r for r in pool}.values()]
             bag = bag_with_total(rng, pool, tt, 5)
             s = rng.choice([F(1), F(1), F(1, 2), F(2, 3), F(3), F(5, 2)])
